@@ -398,7 +398,10 @@ def run(tier):
                 fld = {"P": "P", "P1": "P", "Q": "Q", "Q1": "Q", "P2": "P2", "Q2": "Q2"}.get(cell["which"], "P")
                 if not ent:
                     facts["column"] = "%s %s %s (no such library entry)" % (t, cell["p"], cell["which"]); break
-                want = str(Decimal(ent[0][fld]).quantize(Decimal("0.000001"), rounding=ROUND_HALF_EVEN))
+                try:
+                    want = str(Decimal(ent[0][fld]).quantize(Decimal("0.000001"), rounding=ROUND_HALF_EVEN))
+                except Exception:
+                    want = "(library value is not a number: %s)" % ent[0][fld]
                 if want != e["vals"][ci]:
                     facts["column"] = "%s %s %s" % (t, cell["p"], cell["which"])
                     detail["expected"] = want; detail["reported"] = e["vals"][ci]
